@@ -93,6 +93,8 @@ def cases(tier, seed):
 
 
 def classify(cfg, kind):
+    if kind == 'ring-dearomatised' and g4.has_aromatic_descriptor(cfg):
+        return 'sample/descriptor-on-aromatic-atom/ring-dearomatised'
     return 'sample/%s%s/%s' % ('all-atom' if cfg['all_atom'] else 'coarse', '+terminals' if cfg['term'] else '', kind)
 
 
@@ -179,6 +181,9 @@ def check_molecule(mol, cfg, tpls):
             out.append(('copy-not-isomorphic', 'copy %d (%s): nodes %r edges %r' % (
                 f, names[f], [(x, mol.nodes[x].get(sym)) for x in nodes],
                 [(u, v, d.get('order')) for u, v, d in mol.subgraph(nodes).edges(data=True)])))
+        elif res == 'dearomatised':
+            out.append(('ring-dearomatised', 'copy %d (%s): an aromatic ring of the template came back with ring bond orders %r' % (
+                f, names[f], [(u, v, d.get('order')) for u, v, d in mol.subgraph(nodes).edges(data=True)])))
         elif res == 'accounting':
             out.append(('descriptor-accounting', 'copy %d (%s): remaining %r consumed %r template %r' % (
                 f, names[f], {x: mol.nodes[x].get('bonding') for x in nodes if 'bonding' in mol.nodes[x]},
